@@ -7,6 +7,7 @@ mod c07;
 mod c08;
 mod fref;
 mod history;
+mod histpairs;
 mod c09;
 mod c10;
 mod c11;
